@@ -93,7 +93,7 @@ Theorem C16_serve_response_ok : forall rt files path ims rng r f size mtime fp,
   sanitize (length (r_prefix rt)) (has_fb rt) (r_dir rt) path = Some fp ->
   opened_file rt files fp = Some (f, (size, mtime)) ->
   serve rt files false path ims rng = r ->
-  (exists t, ims = Some t /\ mtime <= t /\ r = R304 f) \/
+  (exists t, ims = Some t /\ mtime_sec mtime <= t /\ r = R304 f) \/
   (rng = RInvalid /\ r = R400) \/
   (file_of r = Some f /\ response_ok size rng r = true).
 Proof. exact serve_response_ok. Qed.
@@ -102,7 +102,7 @@ Print Assumptions C16_serve_response_ok.
 Theorem C16_not_modified_iff : forall rt files path ims rng fp f size mtime,
   sanitize (length (r_prefix rt)) (has_fb rt) (r_dir rt) path = Some fp ->
   opened_file rt files fp = Some (f, (size, mtime)) ->
-  (serve rt files false path ims rng = R304 f <-> exists t, ims = Some t /\ mtime <= t).
+  (serve rt files false path ims rng = R304 f <-> exists t, ims = Some t /\ mtime_sec mtime <= t).
 Proof. exact not_modified_iff. Qed.
 Print Assumptions C16_not_modified_iff.
 
@@ -112,6 +112,24 @@ Theorem C16_not_modified_oracle : forall rt files path ims rng fp f size mtime,
   (serve rt files false path ims rng = R304 f <-> not_modified mtime ims = true).
 Proof. exact not_modified_oracle. Qed.
 Print Assumptions C16_not_modified_oracle.
+
+(* the modification time is a rational (the exact value of the float st_mtime); only its whole
+   seconds count: not modified since t iff last modified before second t+1 began *)
+Theorem C16_mtime_truncation : forall m t,
+  0 < snd m -> (mtime_sec m <= t <-> fst m < (t + 1) * snd m).
+Proof. exact mtime_truncation. Qed.
+Print Assumptions C16_mtime_truncation.
+
+Theorem C16_last_modified_bounds : forall m, 0 < snd m ->
+  last_modified m * snd m <= fst m < (last_modified m + 1) * snd m.
+Proof. exact last_modified_bounds. Qed.
+Print Assumptions C16_last_modified_bounds.
+
+(* as found (fromtimestamp(float).replace(microsecond=0): rounds to the microsecond first) *)
+Theorem C16_mtime_refuted_before_fix :
+  exists m t, 0 < snd m /\ mtime_sec m <= t /\ ~ (mtime_sec_as_found m <= t).
+Proof. exact mtime_as_found_refuted. Qed.
+Print Assumptions C16_mtime_refuted_before_fix.
 
 (* the oracle evaluated on the implementation accepts the model for every size and Range *)
 Theorem C16_response_ok_sound : forall file size rng,
